@@ -54,6 +54,14 @@ def run(b, tier, seed, findings, known_seen):
     for _ in range(nrand):
         strings.append("".join(rnd.choice(ALPHA) for _ in range(rnd.randint(maxlen + 1, 40 if tier == "quick" else 60))))
     strings += ["﻿", "﻿a", "a﻿", "﻿﻿x"]
+    # long values: a special character at every position around the places where the serialiser folds (74 octets per physical line):
+    # a character that the unfolding could swallow together with the fold (CR, LF, space, tab, backslash) must survive
+    for ch in ("\r", "\n", " ", "\t", "\\", "\r\r", " \r", "\r "):
+        for pos in list(range(55, 80)) + list(range(128, 153)) + list(range(202, 227)):
+            strings.append("x" * pos + ch + "y" * 30)
+    for ch in ("\r", " ", "\t"):
+        for pos in range(60, 76):
+            strings.append("\u00e9" * (pos // 2) + ch + "\u4f1a" * 40 + ch + "z")
     ps = paths()
     fails = {}
     cases = 0
